@@ -92,3 +92,6 @@ Fixpoint while_x {A R} (fuel : nat) (step : A -> result (A + (A + R))) (a : A) :
   | O => Err OtherErr
   | S f => do r <- step a; match r with inl a' => while_x f step a' | inr x => Ok x end
   end.
+
+(* options.Options as far as the length filter reads it *)
+Record opts := mkOpts { o_min : Z; o_max : Z }.
